@@ -104,12 +104,81 @@ def set_value_sanitised(ctx, rule='A6'):
     s = stores[-1]
     from ..flow import Slice
     sl = Slice(fn)
-    origins = [v for _, v, _, _ in sl.origins(s.ast.value, s) if v is not None]
+    origins = [v for _, v, _, _ in sl.origins(s.ast.value, s) if v is not None] + [s.ast.value]
+    # extract-method: a value computed by a private helper is read through the helper's returned expressions, with the
+    # caller's arguments substituted for the parameters
+    import copy
+    helpers = {h.name: h for h in unit_functions(ctx.prog, fn)[1:]}
+    bounds_pairs = []     # (lower name, upper name, owner text) from `lo, hi = <node>.bounds`
+
+    def note_bounds(f_, sub):
+        for a in walk_fn(f_):
+            if isinstance(a, ast.Assign) and isinstance(a.targets[0], ast.Tuple) and len(a.targets[0].elts) == 2 and \
+                    isinstance(a.value, ast.Attribute) and a.value.attr == 'bounds':
+                owner = norm(a.value.value)
+                bounds_pairs.append((norm(a.targets[0].elts[0]), norm(a.targets[0].elts[1]), sub.get(owner, owner)))
+    note_bounds(fn, {})
+    for o in list(origins):
+        for c in ast.walk(o):
+            h = helpers.get(call_name(c)) if isinstance(c, ast.Call) else None
+            if h is None:
+                continue
+            ctx.touch(h)
+            hp = [q for q in h.params if q not in ('self', 'cls')] if isinstance(c.func, ast.Attribute) and \
+                h.params and h.params[0] in ('self', 'cls') else list(h.params)
+            sub = {q: a for q, a in zip(hp, c.args)}
+            sub.update({k.arg: k.value for k in c.keywords if k.arg})
+            note_bounds(h, {q: norm(a) for q, a in sub.items()})
+
+            class S(ast.NodeTransformer):
+                def visit_Name(self, node):
+                    return copy.deepcopy(sub[node.id]) if node.id in sub and isinstance(node.ctx, ast.Load) else node
+            hsl, hcfg = Slice(h), build_cfg(h)
+            for r in (x for x in walk_fn(h) if isinstance(x, ast.Return) and x.value is not None):
+                for v in [r.value] + [v for _, v, _, _ in hsl.origins(r.value, hcfg.node_of(r)) if v is not None]:
+                    origins.append(S().visit(copy.deepcopy(v)))
     txts = [norm(o) for o in origins]
     key_node = norm(s.ast.targets[0].slice)
     disc_ok = any(f'{key_node}.correct_value(' in t for t in txts)
-    cont_ok = any('bounds_fraction' in t and 'dep_lower' in t and 'dep_upper' in t for t in txts) or \
-        any(f'{key_node}.correct_value(' in t for t in txts)
+
+    single = {}
+    for f_ in [fn] + list(helpers.values()):
+        seen_ = {}
+        for a in walk_fn(f_):
+            if isinstance(a, ast.Assign) and len(a.targets) == 1 and isinstance(a.targets[0], ast.Name):
+                seen_.setdefault(a.targets[0].id, []).append(a.value)
+        for k_, v_ in seen_.items():
+            if len(v_) == 1:
+                single.setdefault(k_, v_[0])
+
+    def num(e, env, frac, depth=4):
+        if isinstance(e, ast.Constant) and isinstance(e.value, (int, float)):
+            return float(e.value)
+        if isinstance(e, ast.Name):
+            if e.id in env:
+                return env[e.id]
+            if e.id in single and depth > 0:
+                return num(single[e.id], env, frac, depth - 1)
+            return frac
+        if isinstance(e, ast.BinOp) and isinstance(e.op, (ast.Add, ast.Sub, ast.Mult)):
+            a_, b_ = num(e.left, env, frac, depth), num(e.right, env, frac, depth)
+            return a_ + b_ if isinstance(e.op, ast.Add) else (a_ - b_ if isinstance(e.op, ast.Sub) else a_ * b_)
+        raise ValueError(norm(e))
+
+    def relative(o):
+        # evaluates to lower + fraction * (upper - lower), lower/upper being the bounds of the linked node
+        if not isinstance(o, ast.BinOp):
+            return False
+        for lo, hi, owner in bounds_pairs:
+            if owner != key_node:
+                continue
+            try:
+                if all(abs(num(o, {lo: 2.0, hi: 10.0}, fr) - (2.0 + fr * 8.0)) < 1e-9 for fr in (0.25, 0.5, 1.0)):
+                    return True
+            except ValueError:
+                continue
+        return False
+    cont_ok = any(relative(o) for o in origins)
     ctx.ob(rule, fkey(fn, rule, 'linked-discrete-clamped'), disc_ok, f'{fn.module.relpath}:{s.lineno}',
            f'the option index propagated to a linked node is corrected by that node\'s own correct_value '
            f'(its option list may be shorter)', '; '.join(txts)[:200])
@@ -143,7 +212,8 @@ def set_value_sanitised(ctx, rule='A6'):
                              'the store to a linked node happens only after the constraint type was found to be '
                              'LINKED')
     # discreteness mismatch is rejected
-    mism = [n for n in cfg.nodes if n.kind == 'test' and 'is_discrete' in norm(n.ast) and
+    mism = [n for u in unit_functions(ctx.prog, fn) for n in build_cfg(u).nodes
+            if n.kind == 'test' and 'is_discrete' in norm(n.ast) and
             isinstance(n.ast, ast.Compare) and isinstance(n.ast.ops[0], ast.NotEq)]
     ok = any(m.kind == 'stmt' and isinstance(m.ast, ast.Raise) for t in mism for m, lab in t.succ if lab == 'T')
     ctx.ob('A5', fkey(fn, 'A5', 'same-kind-required'), ok, fn.where,
@@ -215,6 +285,12 @@ def check(ctx):
 from ..selftest import V  # noqa: E402
 
 VARIANTS = [
+    V('linked-continuous-gets-raw-fraction-of-own-bounds', 'graph/adsg.py',
+      [("                    dep_lower, dep_upper = linked_des_var_node.bounds\n", "                    dep_lower, dep_upper = des_var_node.bounds\n")],
+      key='linked-continuous-relative'),
+    V('twin-linked-continuous-hoisted', 'graph/adsg.py',
+      [("                    dep_value = dep_lower + bounds_fraction * (dep_upper - dep_lower)\n", "                    dep_range = dep_upper - dep_lower\n                    dep_value = dep_lower + bounds_fraction * dep_range\n")],
+      expect='silent'),
     V('desvar-compared-by-value', 'optimization/dv_output_defs.py',
       [("    def __str__(self):\n        if self.is_discrete:\n            return f'DV: ", "    def __hash__(self):\n        return hash(self.name)\n\n    def __eq__(self, other):\n        return isinstance(other, DesVar) and self.name == other.name\n\n    def __str__(self):\n        if self.is_discrete:\n            return f'DV: ")], key='A21i'),
     V('clamp-upper-off-by-one', 'graph/adsg_nodes.py',
